@@ -22,6 +22,9 @@ import numpy as np
 
 from . import boson
 
+# the private attributes whose content the shadow models; only a write to one of these from outside the API taints a shadow
+MODELLED_PRIVATE_STATE = {"_Circuit__" + a for a in ("circuit_spec", "n_modes", "in_heralds", "out_heralds",
+                                                     "external_in_heralds", "external_out_heralds", "internal_modes")}
 MAX_COMPARE_PHOTONS = 9      # largest permanent evaluated in a shadow comparison
 _wire = itertools.count()
 
@@ -607,8 +610,8 @@ def _wrap_method(cls, name):
                            witness={"events": list(sh.events) if sh else None,
                                     "after": observable_state(self)},
                            mechanism="rejected_call_changed_circuit")
-                    if sh is not None:
-                        sh.tainted = True
+                    # the shadow is NOT advanced and stays in force: what the circuit does from here on is still to be the
+                    # composition of the calls that succeeded (C02, C01 judge the later observations)
             raise
         _depth = 0
         STATS["events"] += 1
@@ -677,7 +680,9 @@ def install(lw_circuit_module=None):
     osa = object.__setattr__
 
     def sa(self, name, value):
-        if _depth == 0 and name.startswith("_Circuit__"):
+        if _depth == 0 and name.startswith("_Circuit__") and name not in MODELLED_PRIVATE_STATE:
+            STATS["private_writes_of_unmodelled_attributes"] += 1      # e.g. a cache: the shadow stays in force
+        elif _depth == 0 and name.startswith("_Circuit__"):
             sh = _shadows.get(self)
             if sh is not None:
                 sh.tainted = True       # private write from outside the API
